@@ -32,7 +32,8 @@ PROPS["C10"] = dict(
 PROPS["C11"] = dict(
     pkg="./props/codec", level="exploration", design_ref="DESIGN.md §3 C11",
     technique="rapid-generated well-formed messages serialised by an independent encoder, parsed by quickfix in three dictionary modes and compared field by field with an independent scanner; single-corruption metamorphic variants must be rejected",
-    stages=[dict(name="rapid", kind="rapid", run="^TestC11_Rapid$", checks=(3000, 60000), shards=(12, 16), timeout=(400, 2400))],
+    stages=[dict(name="rapid", kind="rapid", run="^TestC11_Rapid$", checks=(3000, 60000), shards=(12, 16), timeout=(400, 2400)),
+            dict(name="fuzz-parse", kind="fuzz", run="^FuzzC11_Parse$", thorough_only=True, fuzztime=(0, 90), timeout=(0, 400))],
     require=["mode:none", "mode:app", "mode:fixt", "with-xmldata", "with-dictionary-group", "corruption:len+", "corruption:swap89", "corruption:omit35"],
     assumptions=["section membership of a tag is the FIX standard header/trailer table (identical in all shipped dictionaries)",
                  "duplicate tags outside groups are not generated (retrieval would be ambiguous)"],
@@ -41,7 +42,8 @@ PROPS["C11"] = dict(
 PROPS["C12"] = dict(
     pkg="./props/codec", level="exploration", design_ref="DESIGN.md §3 C12",
     technique="metamorphic testing (any read partition == one generous read) plus a reference framer, on rapid-generated streams and partitions aimed inside tags, lengths and checksums",
-    stages=[dict(name="rapid", kind="rapid", run="^TestC12_Rapid$", checks=(3000, 60000), shards=(12, 16), timeout=(400, 2400))],
+    stages=[dict(name="rapid", kind="rapid", run="^TestC12_Rapid$", checks=(3000, 60000), shards=(12, 16), timeout=(400, 2400)),
+            dict(name="fuzz-stream", kind="fuzz", run="^FuzzC09_Stream$", thorough_only=True, fuzztime=(0, 60), timeout=(0, 400))],
     require=["family:wellformed", "family:soup", "split-inside-tag-length-or-checksum", "message-larger-than-buffer", "two-or-more-messages"],
     assumptions=["frames are observed through parser.ReadMessage (hook H1 wraps the unexported parser); the sequence ends at the first error, as in connection.go's readLoop",
                  "junk between messages contains no '8=' marker, per the statement"],
@@ -192,6 +194,23 @@ PROPS["C20"] = dict(
              "history-with:test-request-answered", "history-with:reconnect", "override:true", "override:false"],
     assumptions=["virtual time: a timer fires exactly at the deadline the engine armed through EventTimer.Reset, never otherwise",
                  "'nothing sent/received' is measured from the last frame written / delivered in virtual time"],
+)
+
+PROPS["C09"] = dict(
+    pkg="./props/codec", level="exploration", design_ref="DESIGN.md §3 C09",
+    technique="structure-aware mutation testing with rapid over six in-process targets (parse+accessors, stream framing, validation against all shipped dictionaries, settings text, dictionary XML in a child process, a session in every state), oracle = no panic / no hang / session still answers a TestRequest; native Go fuzzing of the byte-level targets in the thorough tier",
+    stages=[dict(name="message", kind="rapid", run="^TestC09_Message$", checks=(2500, 40000), shards=(8, 16), timeout=(600, 3000)),
+            dict(name="stream", kind="rapid", run="^TestC09_Stream$", checks=(1500, 20000), shards=(4, 16), timeout=(600, 3000)),
+            dict(name="settings", kind="rapid", run="^TestC09_Settings$", checks=(3000, 40000), shards=(2, 8), timeout=(600, 3000)),
+            dict(name="dictionary", kind="rapid", run="^TestC09_Dictionary$", checks=(150, 1500), shards=(8, 16), timeout=(600, 3000)),
+            dict(name="session", kind="rapid", run="^TestC09_Session$", pkg="./props/session", checks=(1500, 25000), shards=(8, 16), timeout=(600, 3000)),
+            dict(name="fuzz-message", kind="fuzz", run="^FuzzC09_Message$", thorough_only=True, fuzztime=(0, 90), timeout=(0, 400)),
+            dict(name="fuzz-stream", kind="fuzz", run="^FuzzC09_Stream$", thorough_only=True, fuzztime=(0, 60), timeout=(0, 400)),
+            dict(name="fuzz-settings", kind="fuzz", run="^FuzzC09_Settings$", thorough_only=True, fuzztime=(0, 45), timeout=(0, 400))],
+    require=["target:message", "target:stream", "target:settings", "target:dictionary", "target:session", "message:parsed", "stream:framed", "settings:accepted",
+             "dictionary:in-child-process", "session:garbage-then-alive"],
+    assumptions=["frames given to the session target are what the real stream framer extracts from the mutated bytes (wire-reachable frames)",
+                 "a stack overflow while loading a dictionary is observed as the death of a child process"],
 )
 
 NOT_APPLICABLE = {}
